@@ -50,6 +50,20 @@ CHECKS = {
             "secondary-structure outputs of rnapolis.common only",
             "assumes int/tuple-of-int sets iterate independently of the hash seed; annotator/parser/serialiser outputs are outside",
             "CrossHair symbolic execution with hash order as symbolic schedule", "5/C14"),
+    "C03": ("E2", MC,
+            "the discrete logic of the real find_pairs is explored on abstracted geometry (free boolean per candidate contact / angle test, free "
+            "real per torsion): for every combination z3 decides that each reported pair has two accepted contacts on its edges, the right "
+            "cis/trans letter, exclusive edges, and that no free edge combination with two base-to-base contacts is left unreported; kernels on real "
+            "symbolic geometry decide the contact test (distance 4.0, angles 50-130), detect_cis_trans and base_normal_vector. Partial",
+            "two residues with 3 donor/acceptor atoms each; KD-tree, angle and torsion functions replaced by stubs / free values in the logic part; "
+            "donor/acceptor/edge tables pinned in spec/tables.json",
+            "symbolic execution of the real code on boolean / real proxies (own engine) + z3", "5/C03"),
+    "C11": ("E2", MC,
+            "detect_saenger with symbolic one-letter names and class (symmetry under reversal, table agreement); lists produced by the real find_pairs "
+            "on abstracted geometry (ordering, no repeats, Saenger class, BPh/BR class implied by an in-range donor->oxygen contact incl. merge rules, "
+            "one class per kind per pair); find_stackings on three residues with symbolic gaps (each pair once, order, model filter). Partial",
+            "two / three residue configurations; Zirbel table pinned in the harness; stubs as in C03",
+            "symbolic execution of the real code on proxies (own engine) + z3", "5/C11"),
     "C04": ("E2", MC,
             "the real find_stackings runs on z3 reals (two residues, symbolic unit normals, centroid offset d along a frame axis, symbolic "
             "atom spread and translation, optional leading non-nucleotide residue); per explored path the obligations 'listed and outside the "
